@@ -566,6 +566,10 @@ func c08(c *Ctx) {
 		}
 	}
 
+	// ---- R4 both ends of a transfer must settle on the same version: the version is a symmetric
+	// function (the maximum of the intersection) of the two advertised lists
+	checkHighestCommon(c, "R4.symmetric-version", highestCommonFn(p))
+
 	// ---- R4 asking side
 	if decoder != nil {
 		dname := core.FuncName(decoder)
